@@ -6,6 +6,29 @@ import json
 import os
 import sys
 
+# what the six mutation rounds added on top of the original level text (details: DESIGN.md section 3a, third to sixth pass)
+ADDENDA = {
+ 'C01': ' Added later: name-sake document sequences, same-line layouts (every pair of neighbouring logical lines joined once; 47 admitted joins calibrated on the current tree), blanks around dots and tight reference operators, keyword-like string defaults, CRLF files through the path / open-file routes, coincidence classes of the generator (long / case-twin / `public` names, equal texts, expression == column name, mirrored references).',
+ 'C02': ' Added later: the rendered database is edited in place (column moved, endpoint reassigned, renames) and round-tripped again; keyword-like string defaults (known finding), coincidence classes of the generator.',
+ 'C03': ' Added later: verbatim default / note / comment fragments, one Note object shared by two elements, the `abstract` flag on FK-less tables, coincidence classes (an element named `public`, 17-digit floats, long index names, several pk indexes, default equal to an enum item).',
+ 'C04': ' Added later: endpoints reassigned and references made equal by an edit between two renderings, mirrored / twin references over one column pair, caller-owned column lists mutated after construction, long names, serial types.',
+ 'C05': ' Added later: name-sake documents first, two live parser objects, alias equal to the own bare name, column.get_refs(), padded composite endpoints.',
+ 'C06': ' Added later: near-miss schemas of `public`, ghosts named like an alias or like a real table with blanks around the name, table-less documents, empty quoted reference names, missing columns named like positions / function calls / format fields, documents wrapped in starred block comments; every rule under both option values.',
+ 'C07': ' Added later: a second settings list, settings of another element kind, unterminated comment variants, malformed numbers, stray U+FEFF, non-ASCII bare words, too many dotted parts, blanks inside types, bare names of 1-5000 characters.',
+ 'C08': ' Added later: reference-shape stream, table-less documents, file-name-like one-liners, foreign settings, attribute-like keys, big counts, and a growth probe for termination (ratio between sizes in a child process, not a wall-clock limit).',
+ 'C09': ' Added later: a render operation and enum renames inside the exhaustive histories, dotted enum names, falsy sticky notes, subclass instances, references of another database, tuple-built and caller-mutated column lists, constructor-vs-add differentials.',
+ 'C10': ' Added later: read-back of assignments, must-appear and at-most-once tokens, note write-back, derived enums / tables, endpoints reassigned or replaced inside the list, columns moved, list attributes mutated in place, identity post-conditions of add_*.',
+ 'C11': ' Added later: name-sake histories, custom-option history steps followed by option-less entry points, file histories (same size and time stamp), two live parser objects, same-thread re-entrancy probe, process-locale probe, shared-text / same-document schedules, stuck-thread detector.',
+ 'C12': ' Added later: other file encodings, pipes, handles opened r+ / w+ / a+ / TemporaryFile, partially read handles, options by position, indented documents, repeat after editing the first result, rewritten files, texts naming an existing file, two byte order marks.',
+ 'C13': ' Added later: strings of particular lengths, placeholder / escape look-alike / keyword-shaped strings, in-place edits after the first rendering, element-level COMMENT ON, API-built isolation.',
+ 'C14': ' Added later: repeated-line and empty comments, comments after closing braces and after setting colons, keyword-shaped and backslash-ending comment texts, comment-text neutrality, SQL prefix check for every emitter.',
+ 'C15': ' Added later: keyword-prefixed keys, keyword-like and long values, in-place dict isolation (parsed and API-built), tables moved between databases, the option by position and behind a byte order mark, same-line layouts.',
+ 'C16': ' Added later: parser-path route, copied and directly edited handler tables, re-added project, refused elements, references deleted through an equal copy, twin-database comparison (rendered before an edit vs never rendered).',
+ 'C17': ' Added later: abstract tables, moved columns, partly detached sides, refused add_index, many-to-many endpoints without type, one of two equal indexes deleted, same-named endpoint columns, a missing attribute after a rendering refused for another reason.',
+ 'C18': ' Added later: holder-first model of the known finding, self references, aliases, case-twin and empty table names, enum named like a table, moved / dangling key columns, many-to-many and back, twin databases, schemas of more than a thousand tables.',
+}
+
+
 HERE = os.path.dirname(os.path.dirname(os.path.abspath(__file__)))
 sys.path.insert(0, HERE)
 sys.path.insert(0, os.path.join(HERE, '.deps'))
@@ -43,7 +66,7 @@ for p in props:
         'evidence_file': f'/verif/evidence/{pid}.json',
         'replay_cmd_template': './vcheck replay {path}',
         'engine': 'pv',
-        'level_claimed': {'category': meta.get('category', 'exploration'), 'text': meta['text'],
+        'level_claimed': {'category': meta.get('category', 'exploration'), 'text': meta['text'] + ADDENDA.get(pid, ''),
                           'design_ref': meta.get('design_ref', 'DESIGN.md section 3, ' + pid)},
         'level_note': meta['note'],
         'technique': meta['technique'],
